@@ -342,6 +342,12 @@ CoverOK(n, adj, cover) ==
   /\ \A i, j \in Pts(n) : (i < j /\ Linked(adj, i, j)) =>
         \E ci \in 1 .. Len(cover) : InChunk(cover[ci], i) /\ InChunk(cover[ci], j)
 
+(* ---- named deviation ---- *)
+(* D-C05-1: chunks.getbounds computes slice index nDec for a point with Dec = +90 exactly, assign()   *)
+(* skips the point silently, so the cover handed to the merge violates the first conjunct of CoverOK *)
+(* and friendsoffriends reads mapGroups[-1] for it (the model stops in pc = "error" instead).        *)
+Dev_PointInNoChunk(n, cover) == \E p \in Pts(n) : \A ci \in 1 .. Len(cover) : ~InChunk(cover[ci], p)
+
 (* ---- invariants of the two design models ---- *)
 (* the points of the local groups already merged, as a relation on points *)
 RECURSIVE SumLen(_, _)
